@@ -256,7 +256,8 @@ class Sim:
         if e.state != 'killed':
             e.state = 'done'
             e.exit_code = code
-        self.quiet_polls = 0
+        if e.kind == 'worker':
+            self.quiet_polls = 0
         self._schedule(e, leaving=True)
 
     # ------------------------------------------------------------ scheduling
@@ -287,7 +288,7 @@ class Sim:
                     continue
                 elif self.gate_mode == 'hold' or self.finished or e.gate_open:
                     acts.append(('release', e))
-                elif self.gate_mode == 'rest' and self.quiet_polls >= 2:
+                elif self.gate_mode == 'rest' and self.quiet_polls >= 4:
                     acts.append(('release', e))
         if earliest is not None and not coord_active:
             acts.append(('timeout', earliest))
